@@ -43,6 +43,33 @@ def version_sensitive_names():
 VERSION_SENSITIVE = set()
 
 
+def short(x, n=48):
+    """Witness-friendly copy: long strings as prefix + length."""
+    if isinstance(x, str):
+        return x if len(x) <= n else '%s...<%d chars>' % (x[:n], len(x))
+    if isinstance(x, (list, tuple)):
+        return [short(y, n) for y in x]
+    if isinstance(x, dict):
+        return {k: short(v, n) for k, v in x.items()}
+    return x
+
+
+_RULES = {}
+
+
+def in_version(name, ver):
+    """Rule table data only (version added / deprecated), not the query methods of policy.py."""
+    if not _RULES:
+        from kmip.services.server import policy
+        for n, r in policy.AttributePolicy(contents.ProtocolVersion(1, 0))._attribute_rule_sets.items():
+            _RULES[n] = ((r.version_added.major, r.version_added.minor),
+                         (r.version_deprecated.major, r.version_deprecated.minor) if r.version_deprecated else None)
+    if name not in _RULES:
+        return False
+    added, dep = _RULES[name]
+    return tuple(ver) >= added and not (dep is not None and tuple(ver) >= dep)
+
+
 def table_names():
     from kmip.services.server import policy
     return list(policy.AttributePolicy(contents.ProtocolVersion(1, 0))._attribute_rule_sets.keys())
@@ -331,7 +358,7 @@ def coq_views(views):
 TYPES = {t.name: t for t in kdrv.STORED_TYPES}
 
 
-def make_object(eng, spec):
+def make_object(eng, spec, ver=None):
     """spec: {'type', 'user', 'names', 'groups', 'asi', 'sens', 'mask', 'via'} -> uid (str) or None."""
     ot = TYPES[spec['type']]
     attrs = []
@@ -351,7 +378,7 @@ def make_object(eng, spec):
         item = kdrv.create(attrs=attrs)
     else:
         item = kdrv.register(ot, attrs=attrs)
-    r = eng.request([item], version=OBS_VER, user=spec['user'])
+    r = eng.request([item], version=tuple(ver or spec.get('ver') or OBS_VER), user=spec['user'])
     it = r['items'][0] if r['items'] else None
     if it is None or not kdrv.ok(it):
         return None
@@ -478,7 +505,7 @@ def sig_of(st, ver, kind):
 
 
 _WEAK = [0]
-STRONG = ('protected-changed', 'failure-changed-store', 'failed-batch-item-left-trace', 'failed-batch-item-changed-store',
+STRONG = ('attribute-not-in-version', 'protected-changed', 'failure-changed-store', 'failed-batch-item-left-trace', 'failed-batch-item-changed-store',
           'other-object-changed', 'inexact-effect')
 
 
@@ -489,7 +516,8 @@ def strong_found(ctx):
 def oracle_step(ctx, hist, k, st, ver, status_ok, reason, pre, post, pre_dump, post_dump, resp_item):
     """The property itself on the implementation: returns the number of violations reported."""
     n = 0
-    wit = {'history': hist, 'failing_step': k, 'step': st, 'result': 'SUCCESS' if status_ok else reason}
+    wit = {'history': hist if hist.get('kind') != 'length' else {'length_history': hist['desc']}, 'failing_step': k, 'step': short(st),
+           'result': 'SUCCESS' if status_ok else reason}
     # 1. protected attributes of every object, read from the SQL tables
     pp, pq = protected_from_dump(pre_dump), protected_from_dump(post_dump)
     if pp != pq:
@@ -505,6 +533,12 @@ def oracle_step(ctx, hist, k, st, ver, status_ok, reason, pre, post, pre_dump, p
                           'an unsuccessful %s call changed the store' % st['form'])
             n += 1
         return n
+    # 3a. a client of protocol version v can change only attributes that exist in v (rule table: version added / deprecated)
+    nm = sig_of(st, ver, '')['attribute']
+    if nm is not None and not in_version(nm, ver):
+        ctx.violation(sig_of(st, ver, 'attribute-not-in-version'), wit,
+                      '%s succeeded on %r, which KMIP %d.%d does not have according to the rule table' % (st['form'], nm, ver[0], ver[1]))
+        n += 1
     # 3. success: exactly the addressed instance
     uid = st['uid']
     pre_by = {str(o['uid']): o for o in pre}
@@ -540,7 +574,7 @@ def oracle_step(ctx, hist, k, st, ver, status_ok, reason, pre, post, pre_dump, p
     want = dict(pre_by[str(uid)])
     want[fld] = content
     if want != post_by[str(uid)]:
-        d = {f: (want[f], post_by[str(uid)][f]) for f in FIELDS if want[f] != post_by[str(uid)][f]}
+        d = {f: (short(want[f]), short(post_by[str(uid)][f])) for f in FIELDS if want[f] != post_by[str(uid)][f]}
         ctx.violation(symptom(sig_of(st, ver, 'inexact-effect')), dict(wit, expected_vs_observed=d),
                       'a successful call did not change exactly the addressed instance to the requested value')
         n += 1
@@ -574,14 +608,31 @@ def fresh_engine(workdir):
     return kdrv.Engine(path=path)
 
 
-def run_history(ctx, hist, workdir, check=True):
-    """Execute an abstract history on a fresh real engine.  Returns (coq_case or None, meta)."""
+def run_history(ctx, hist, workdir, check=True, coq=True):
+    """Execute an abstract history on a fresh real engine.  Returns (coq_case or None, meta).
+    hist['create_ver']: protocol version of the creating requests (the FIRST requests the engine object serves);
+    coq=False: direct oracle only (values that cannot be written as Coq string literals)."""
+    global coq_store, coq_views
+    if not coq:
+        keep = (coq_store, coq_views)
+        coq_store = coq_views = lambda x: ''
     eng = fresh_engine(workdir)
     try:
         for spec in hist['objects']:
-            make_object(eng, spec)
+            make_object(eng, spec, hist.get('create_ver'))
         dump = eng.dump()
         pre, views = observe(eng, dump)
+        if check:
+            # creation reflects the requested values exactly (GetAttributes in a separate request)
+            for spec, o in zip(hist['objects'], pre):
+                got = {'names': o['names'], 'groups': o['groups'], 'asi': o['asi']}
+                want = {'names': list(spec.get('names', [])), 'groups': list(spec.get('groups', [])), 'asi': [list(a) for a in spec.get('asi', [])]}
+                if len(hist['objects']) == len(pre) and got != want:
+                    d = {f: (short(want[f]), short(got[f])) for f in want if want[f] != got[f]}
+                    ctx.violation({'op': 'REGISTER' if spec.get('via') != 'create' else 'CREATE', 'kind': 'inexact-effect',
+                                   'attribute': sorted(d)[0]},
+                                  {'history': short(hist), 'object': short(spec), 'expected_vs_observed': d},
+                                  'GetAttributes after creation does not report exactly the requested attribute values')
         steps_coq = []
         store0 = coq_store(pre)
         meta = {'results': [], 'violations': 0}
@@ -622,17 +673,19 @@ def run_history(ctx, hist, workdir, check=True):
             if check:
                 meta['violations'] += oracle_step(ctx, hist, k, st, ver, okk, reason, pre, post, dump, post_dump, it)
             uid = st['uid']
-            head = '(%s, %s) %s %s %s %s' % (cp.z(ver[0]), cp.z(ver[1]), cp.string(st['user']),
-                                           cp.option(int(uid) if uid is not None else None, cp.z), coq_req(st),
-                                           cp.string('' if okk else reason))
+            head = '' if not coq else '(%s, %s) %s %s %s %s' % (
+                cp.z(ver[0]), cp.z(ver[1]), cp.string(st['user']),
+                cp.option(int(uid) if uid is not None else None, cp.z), coq_req(st), cp.string('' if okk else reason))
             if same:
                 steps_coq.append('(KAttrSame %s)' % head)
             else:
                 steps_coq.append('(KAttr %s %s %s)' % (head, coq_store(post), coq_views(pviews)))
             pre, dump, views = post, post_dump, pviews
-        return '(%s, %s)' % (store0, cp.lst(steps_coq, lambda x: x)), meta
+        return ('(%s, %s)' % (store0, cp.lst(steps_coq, lambda x: x)) if coq else None), meta
     finally:
         eng.close()
+        if not coq:
+            coq_store, coq_views = keep
 
 
 # ---------------------------------------------------------------------- generators
@@ -763,6 +816,98 @@ def sensitive_history(otype):
     A(form='del', ver=(1, 4), name='Sensitive', idx=0, uid='4', user='bob')
     reload()
     return {'objects': objs, 'steps': steps}
+
+
+LENGTHS = [0, 1, 254, 255, 256, 257, 1023, 1024, 1025, 4096, 65536]
+
+
+def text_of(length, charset, salt):
+    """Deterministic text of exactly `length` characters; 'utf8' mixes 1-, 2- and 3-byte characters so that byte and
+    character counts differ."""
+    unit = ('e\u00e9\u20acx%s' if charset == 'utf8' else 'abcx%s') % salt
+    return (unit * (length // len(unit) + 1))[:length]
+
+
+def length_history(field, form, charset, otype):
+    """One text-valued changeable attribute driven through every length boundary by ModifyAttribute (1.x index form or 2.0
+    current/new form), and the same values at creation (second object).  Direct oracle only."""
+    vals = [text_of(L, charset, field[0]) for L in LENGTHS]
+
+    def jv(t):
+        if field == 'namespace':
+            return ['A', t, 'd']
+        if field == 'data':
+            return ['A', 'ns', t]
+        return ['T', t]
+    name = {'name': 'Name', 'group': 'Object Group', 'namespace': 'Application Specific Information',
+            'data': 'Application Specific Information'}[field]
+    fld = MULTI[name]
+    o1 = {'type': otype, 'user': 'alice', 'via': 'register', 'names': ['a', 'b'], 'groups': ['g', 'h'],
+          'asi': [['ns0', 'd0'], ['ns1', 'd1']], 'sens': None, 'mask': 12}
+    # creation with three of the boundary values at once (rotating), the rest of the menu via Modify
+    o2 = dict(o1, user='alice')
+    pick = [vals[i] for i in (3, 4, 10)] if form == 'mod1' else [vals[i] for i in (1, 5, 8)]
+    o2[fld] = [jv_plain(jv(t)) for t in pick] if fld != 'names' or all(pick) else [jv_plain(jv(t)) for t in pick if t]
+    steps = []
+    cur = jv_plain(jv('b' if field == 'name' else 'h')) if field in ('name', 'group') else ['ns1', 'd1']
+    for t in vals:
+        new = jv(t)
+        if form == 'mod1':
+            steps.append({'k': 'attr', 'form': 'mod', 'ver': [1, 2], 'user': 'alice', 'uid': '1', 'attr': [name, 1, new]})
+        else:
+            steps.append({'k': 'attr', 'form': 'mod', 'ver': [2, 0], 'user': 'alice', 'uid': '1', 'new': [name, new],
+                          'cur': (['A'] + cur) if isinstance(cur, list) else ['T', cur]})
+        cur = jv_plain(new)
+    steps.append({'k': 'other', 'what': 'restart', 'uid': '1', 'user': 'alice'})
+    return {'kind': 'length', 'desc': {'field': field, 'form': form, 'charset': charset, 'type': otype, 'lengths': LENGTHS},
+            'objects': [o1, o2], 'steps': steps}
+
+
+def mixed_version_history(low_first, otype):
+    """ONE engine object serving traffic on both sides of the 1.4 boundary (Sensitive exists from 1.4 on), in both orders:
+    low_first: the objects are created and first looked at under KMIP 1.2, then 1.4 / 2.0 requests follow;
+    otherwise creation and the first lookups run under 1.4 and 1.0-1.3 requests follow.  After a restart the other order."""
+    def spec(user):
+        return {'type': otype, 'user': user, 'via': 'register', 'names': ['a'], 'groups': ['g'], 'asi': [], 'sens': None, 'mask': 12}
+    objs = [spec('alice'), spec('alice'), spec('alice'), spec('alice')]
+    steps = []
+
+    def A(**kw):
+        kw.setdefault('user', 'alice')
+        kw['k'] = 'attr'
+        steps.append(kw)
+
+    def low(uid):
+        for v in ((1, 2), (1, 0), (1, 3)):
+            A(form='mod', ver=v, attr=['Sensitive', None, ['B', True]], uid=uid)
+            A(form='del', ver=v, name='Sensitive', idx=None, uid=uid)
+        A(form='mod', ver=(1, 2), attr=['Name', 0, ['T', 'n' + uid]], uid=uid)
+
+    def high(uid_a, uid_b):
+        A(form='set', ver=V2, new=['Sensitive', ['B', True]], uid=uid_a)
+        A(form='mod', ver=(1, 4), attr=['Sensitive', None, ['B', True]], uid=uid_b)
+        A(form='mod', ver=V2, new=['Sensitive', ['B', True]], cur=['B', True], uid=uid_a)
+        A(form='del', ver=(1, 4), name='Sensitive', idx=None, uid=uid_a)
+    if low_first:
+        steps.append({'k': 'other', 'what': 'get', 'uid': '1', 'user': 'alice'})      # GetAttributes under KMIP 1.2
+        low('1')
+        high('1', '2')
+        low('3')
+        steps.append({'k': 'other', 'what': 'restart', 'uid': '1', 'user': 'alice'})
+        high('3', '4')
+        low('4')
+    else:
+        high('1', '2')
+        low('3')
+        high('3', '4')
+        steps.append({'k': 'other', 'what': 'restart', 'uid': '1', 'user': 'alice'})
+        steps.append({'k': 'other', 'what': 'get', 'uid': '1', 'user': 'alice'})
+        low('4')
+        high('4', '4')
+    h = {'objects': objs, 'steps': steps}
+    if low_first:
+        h['create_ver'] = [1, 2]
+    return h
 
 
 def shared_history(rng, otype):
@@ -1306,6 +1451,9 @@ def histories_for(ctx):
         hs.append(('shared', shared_history(rng, t)))
     for t in types:
         hs.append(('sensitive', sensitive_history(t)))
+    for j, t in enumerate(types if not quick else [types[ctx.seed % 7], types[(ctx.seed + 3) % 7]]):
+        hs.append(('mixed', mixed_version_history(True, t)))
+        hs.append(('mixed', mixed_version_history(False, t)))
     for _ in range(60 if quick else 600):
         hs.append(('random', random_history(rng, names + [BOGUS], 14)))
     return hs
@@ -1368,10 +1516,23 @@ def run(ctx):
                 for o in h['objects']:
                     o['mask'] = None
                 run_history(ctx, h, work)
-    order = {'protected-changed': 0, 'other-object-changed': 1, 'failure-changed-store': 2, 'failed-batch-item-changed-store': 2,
+    order = {'attribute-not-in-version': 1, 'protected-changed': 0, 'other-object-changed': 1, 'failure-changed-store': 2, 'failed-batch-item-changed-store': 2,
              'inexact-effect': 3,
              'failed-batch-item-left-trace': 4, 'no-exact-effect-possible': 5}
     n = batch_frame_oracle(ctx, ctx.subrng('batch'), work, 30 if ctx.tier == 'quick' else 300)
+    nl = 0
+    types_ = list(TYPES)
+    for fi, field in enumerate(('name', 'group', 'namespace', 'data')):
+        for gi, form in enumerate(('mod1', 'mod2')):
+            for ci, charset in enumerate(('ascii', 'utf8')):
+                for t in (types_ if ctx.tier != 'quick' else [types_[(fi + gi + ci + ctx.seed) % 7]]):
+                    h = length_history(field, form, charset, t)
+                    _, meta = run_history(ctx, h, work, coq=False)
+                    nl += len(LENGTHS)
+                    for L, res in zip(LENGTHS, meta['results']):
+                        ctx.count('length.%s.%s.%s' % (field, form, 'SUCCESS' if res == 'SUCCESS' else 'failed'))
+                        ctx.case_seen(('length', field, form, charset, t, L, res), nontrivial=True)
+    ctx.log('length oracle: %d ModifyAttribute steps over %r characters (ASCII and multi-byte), same values at creation' % (nl, LENGTHS))
     np_ = placeholder_batch_oracle(ctx, work)
     ctx.log('placeholder oracle: %d batches [Create | Register | CreateKeyPair | DeriveKey ; attribute operation without identifier]' % np_)
     nb = boundary_batch_oracle(ctx, work)
@@ -1392,6 +1553,15 @@ def replay(ctx, data):
     load_local_findings(ctx)
     w = data.get('input') or {}
     hist = w.get('history')
+    if isinstance(hist, dict) and 'length_history' in hist:
+        d = hist['length_history']
+        hist = length_history(d['field'], d['form'], d['charset'], d['type'])
+        case, meta = run_history(ctx, hist, ctx.work, coq=False)
+        print('lengths', LENGTHS, '->', meta['results'][:len(LENGTHS)])
+        print('violations reproduced:', len(ctx.violations))
+        for v in ctx.violations[:5]:
+            print(' -', v['what'], json.dumps(v['signature'], sort_keys=True))
+        return 1 if ctx.violations else 0
     if hist is None and 'creator' in w:
         res = run_placeholder_batch(ctx, {k: w[k] for k in ('creator', 'otype', 'step', 'version') if k in w}, ctx.work)
         print('batch items:', res)
